@@ -5,7 +5,7 @@ import vlib
 SUB, JUDGE = "roundtrip", "OFCodecTrace"
 # family -> (quick stride, thorough stride, expected minimum at stride 1)
 FAMS = {"VLAN": (61, 1, 65536), "ETH": (1, 1, 40), "IP4": (67, 1, 66000), "IP6": (89, 7, 1500), "FRAG": (13, 1, 16384), "TCP": (1, 1, 1024),
-        "L4": (1, 1, 20), "IGMP": (1, 1, 80), "EXT": (1, 1, 100)}
+        "L4": (1, 1, 20), "IGMP": (1, 1, 80), "EXT": (1, 1, 100), "DL": (1, 1, 50)}
 
 
 def run(ctx):
@@ -25,11 +25,12 @@ def run(ctx):
         "always including VLAN id 0 / 4095), ethertype demux with and without tag, IPv4 version x IHL (options filling the header), all "
         "DSCP/ECN, all 65 536 flags/fragment-offset words, protocol demux; IPv6 version / traffic class / flow labels, all 16 orders of "
         "hop-by-hop / routing / fragment chains x payload kinds x 0-3 options, all 16 384 fragment offset/M words; TCP offset x flags; "
-        "ICMP / UDP / ARP; IGMP v1-v3 with all S/QRV and source / record counts {0,1,2,5}. Each is built on the real types, encoded, decoded, "
+        "ICMP / UDP / ARP; IGMP v1-v3 with all S/QRV and source / record counts {0,1,2,5}; DHCP with option lists; LLDP TLVs. Each is built on the real types, encoded, decoded, "
         "re-encoded; TLC judges bytes = EncPkt(tree) (PktWire.tla, from the RFCs), decoded projection = built projection, re-encoding, "
         "EncPkt(decoded) = bytes, payload decoder kind = Demux(), size = bytes consumed. Families: %s" % counts,
         viol, known,
-        ["DHCP and LLDP TLVs (Read/Write style codecs) are not in this corpus yet",
+        ["DHCP (option lists incl. pad options, hardware lengths 0/1/6/16) and the LLDP chassis / port / TTL TLVs are built through the API and "
+         "round-tripped through their Read / Write codecs (family DL); extension headers up to HEL 255 (family EXT)",
          "a tag whose control word is 0x0000 cannot be expressed by the Go value (presence is inferred from the tag's contents) and is outside the generated domain"],
         exhaustive=not ctx.quick())
 
